@@ -7,7 +7,7 @@ import hashlib, json, os, re, sys, time, traceback
 
 VERIF = os.path.dirname(os.path.dirname(os.path.abspath(__file__)))
 REPO = os.environ.get("VERIF_REPO", "/repo")
-EVID = os.path.join(VERIF, "evidence")
+EVID = os.environ.get("VERIF_EVIDENCE_DIR") or os.path.join(VERIF, "evidence")
 REPLAYS = os.path.join(VERIF, "replays")
 KNOWN = os.path.join(VERIF, "known_findings.json")
 
